@@ -90,12 +90,13 @@ func propC12(c *Ctx) {
 	// an Annotation lexeme must end at the first "*/": the same rule as C08-ANNOTATION-FORMS
 	// ... and a document rendered with CR LF line ends must give the lexemes of the same document rendered with LF
 	c.R.Only = func(rule string) bool {
-		return rule == "C08-ANNOTATION-FORMS" || rule == "C08-COMMENT-RETURN" || rule == "C08-CRLF-ONE-LINE-END"
+		return rule == "C08-ANNOTATION-FORMS" || rule == "C08-COMMENT-RETURN" || rule == "C08-CRLF-ONE-LINE-END" || rule == "C08-COMMENT-FENCE"
 	}
 	c.ruleC08Scanner(m)
 	c.R.Only = nil
 	c.ruleNextDirectiveRecognised("C12-NEXT-DIRECTIVE")
 	c.ruleFirstByteTables("C12-KEYWORD-PREFILTER") // a Description's Text lexeme must end where the next directive starts
+	c.ruleParamsPositionFree("C12-PARAMS-POSITION-FREE")
 	if c.R.Tier == "thorough" {
 		c.thoroughScanner(m, "C12")
 	}
